@@ -77,6 +77,13 @@ def skeletons(v, tier):
         inner = ("c", True, v, {"co_filename": ("z", True, 2), "co_name": ("z", True, 1)})
         out.append(("nested-refs", {"co_consts": (")", False, [inner, ("i", True), ("r", 1), ("r", 4)]),
                                     "co_filename": ("r", 2), "co_name": ("r", 3)}, True))
+        # constants shared between an outer and a nested code object (what the compiler emits when the same constant
+        # occurs in two functions of a module): negative big int, float, text, tuple - flagged once, referenced twice
+        for cname, cshape in (("neglong", ("l", True, 2, True)), ("poslong", ("l", True, 3, False)), ("int", ("i", True)),
+                              ("text", ("z", True, 2)), ("tuple", (")", True, [("i", False), ("N",)])),
+                              ("float", ("raw", "g", True, [0, 0, 0, 0, 0, 0, 0xf8, 0xbf]))):
+            inner2 = ("c", True, v, {"co_consts": (")", False, [("r", 1), ("N",)]), "co_name": S.text(v, b"h")})
+            out.append(("shared-const-%s" % cname, {"co_consts": (")", False, [cshape, inner2, ("r", 1)])}, True))
         out.append(("names-short", {"co_names": (")", True, [("Z", True, 1), ("r", 2)]), "co_filename": ("a", False, 1),
                                     "co_name": ("A", True, 1)}, True))
     if v >= (3, 11):
